@@ -4,6 +4,7 @@ import VlsModel.Gen.FnCloud
 import VlsModel.Gen.FnRedbVv
 import VlsModel.Gen.FnRedbKv
 import VlsModel.Gen.FnKvvMemNew
+import VlsModel.Gen.FnKvvMemPfx
 import VlsModel.Gen.FnRedbSid
 import VlsModel.Props.C16Gen
 import VlsModel.Gen.FnKvvMem
@@ -1085,6 +1086,163 @@ example : Gen.FnRedbKv.RedbKVVStore.put_with_version (Database := KvTbl) Rs.smap
 example : Gen.FnRedbKv.RedbKVVStore.get (Database := KvTbl) Rs.smapGet ⟨[("a", [0, 0, 0, 0, 0, 0, 1, 2, 9, 8])], []⟩ "a"
     = .ok (some (258, [9, 8])) := by
   rw [C16_fn_redbkv_get]; simp [Rs.smapGet, Rs.fromBeBytes]
+
+/-- one step of the loop of `reset_versions`: the record of a cached key is read (absent → panic), decoded
+    (shorter than 8 bytes → panic) and written back with version 0 and the same value -/
+def kvResetStep {D : Type} (tg : D → String → Option (List Nat)) (ti : D → String → List Nat → D)
+    (tx : D) (key : String) : Rs.M D := do
+  let vv ← Rs.unwrap (tg tx key)
+  let t ← Gen.FnRedbKv.RedbKVVStore.decode_vv vv
+  let vv ← Gen.FnRedbKv.RedbKVVStore.encode_vv 0 t.2
+  pure (ti tx key vv)
+
+/-- the version cache after `reset_versions`: the same keys, every version 0 -/
+def kvZeroed (vs : List (String × Nat)) : List (String × Nat) :=
+  List.foldl (fun fresh k => Rs.smapInsert fresh k 0) [] (vs.map (fun kv => kv.1))
+
+/-- **`RedbKVVStore::reset_versions`**, for every table implementation: exactly the cached keys are rewritten, in key
+    order, each with version 0 and its old value, inside one write transaction (a panic on the way publishes nothing:
+    the result is the error, no store), and the cache becomes `kvZeroed` -/
+theorem C16_fn_redbkv_reset_versions {D : Type} (tg : D → String → Option (List Nat)) (ti : D → String → List Nat → D)
+    (c : Gen.FnRedbKv.RedbKVVStore D) :
+    Gen.FnRedbKv.RedbKVVStore.reset_versions tg ti c
+      = (List.foldlM (kvResetStep tg ti) c.db (c.versions.map (fun kv => kv.1))).map
+          (fun tx => { db := tx, versions := kvZeroed c.versions }) := by
+  have h : Gen.FnRedbKv.RedbKVVStore.reset_versions tg ti c = (do
+      let tx ← List.foldlM (kvResetStep tg ti) c.db (c.versions.map (fun kv => kv.1))
+      pure { db := tx, versions := kvZeroed c.versions }) := rfl
+  rw [h]
+  cases List.foldlM (kvResetStep tg ti) c.db (c.versions.map (fun kv => kv.1)) with
+  | error e => rfl
+  | ok tx => rfl
+
+/-- every version in the cache after `reset_versions` is 0 -/
+theorem kvZeroed_zero (vs : List (String × Nat)) (k : String) (v : Nat)
+    (h : Rs.smapGet (kvZeroed vs) k = some v) : v = 0 := by
+  unfold kvZeroed at h
+  generalize hks : vs.map (fun kv => kv.1) = ks at h
+  have key : ∀ (ks : List String) (m : List (String × Nat)), (∀ k v, Rs.smapGet m k = some v → v = 0) →
+      ∀ k v, Rs.smapGet (List.foldl (fun fresh k => Rs.smapInsert fresh k 0) m ks) k = some v → v = 0 := by
+    intro ks
+    induction ks with
+    | nil => intro m hm; simpa using hm
+    | cons a t ih =>
+      intro m hm
+      simp only [List.foldl_cons]
+      apply ih
+      intro k v hk
+      rw [Rs.smapGet_insert] at hk
+      split at hk
+      · injection hk with hk; exact hk.symm
+      · exact hm k v hk
+  exact key ks [] (by intro k v hk; simp [Rs.smapGet] at hk) k v h
+
+/-! ### Round 10 (b7): `get_prefix` of both stores (`BTreeMap::range(p..)` / `table.range(p..)` as declared externals)
+
+For **every** implementation `rf` of "the entries from `p` on, in key order": the answer is the longest initial run of
+`rf data p` whose keys start with `p` (the loop `break`s at the first other key), for redb with every record decoded
+(a record shorter than 8 bytes panics).  With `rf` = the entries with key ≥ `p` of a sorted table this is the model's
+`dump` (all entries whose key starts with `p`: they are contiguous in key order) — that last step is validated by the
+harness dumps, not proved here. -/
+
+theorem loopB_nil0 {α σ : Type} (s : σ) (f : σ → α → Rs.M (Rs.Flow σ Empty)) : Rs.loopB [] s f = .ok s := rfl
+
+/-- the loop body of the generated `MemoryKVVStore::get_prefix` -/
+def kvPfxBodyMem (p : String) (result : List (String × (Nat × List Nat))) (x : String × (Nat × List Nat)) :
+    Rs.M (Rs.Flow (List (String × (Nat × List Nat))) Empty) :=
+  match x with
+  | (k, (ver, value)) =>
+    if (String.isPrefixOf p k) then pure (.next (result ++ [(k, (ver, value))])) else pure (.brk result)
+
+theorem kvPfxLoopMem (p : String) : ∀ (l acc : List (String × (Nat × List Nat))),
+    Rs.loopB l acc (kvPfxBodyMem p) = .ok (acc ++ l.takeWhile (fun e => String.isPrefixOf p e.1)) := by
+  intro l
+  induction l with
+  | nil => intro acc; simp [loopB_nil0]
+  | cons x xs ih =>
+    intro acc
+    obtain ⟨k, ver, value⟩ := x
+    have hb : kvPfxBodyMem p acc (k, ver, value)
+        = if (String.isPrefixOf p k) then pure (.next (acc ++ [(k, (ver, value))])) else pure (.brk acc) := rfl
+    rw [C16Gen.loopB_cons, hb]
+    by_cases h : String.isPrefixOf p k = true
+    · simp only [h, if_true, bind, Except.bind, pure, Except.pure]
+      rw [ih]
+      simp [List.takeWhile, h]
+    · simp [h, bind, Except.bind, pure, Except.pure, List.takeWhile]
+
+/-- **`MemoryKVVStore::get_prefix`** -/
+theorem C16_fn_mem_get_prefix (rf : List (String × (Nat × List Nat)) → String → List (String × (Nat × List Nat)))
+    (s : Gen.FnKvvMemPfx.MemoryKVVStore) (p : String) :
+    Gen.FnKvvMemPfx.MemoryKVVStore.get_prefix rf s p
+      = .ok ((rf s.data p).takeWhile (fun e => String.isPrefixOf p e.1)) := by
+  have h0 : Gen.FnKvvMemPfx.MemoryKVVStore.get_prefix rf s p
+      = (do let r ← Rs.loopB (rf s.data p) [] (kvPfxBodyMem p); pure r) := rfl
+  rw [h0, kvPfxLoopMem p (rf s.data p) []]
+  rfl
+
+/-- decoding of one table entry as `get_prefix` does it -/
+def kvDecodeEntry (e : String × List Nat) : Rs.M (String × (Nat × List Nat)) := do
+  let t ← Gen.FnRedbKv.RedbKVVStore.decode_vv e.2
+  pure (e.1, (t.1, t.2))
+
+/-- the loop body of the generated `RedbKVVStore::get_prefix` -/
+def kvPfxBodyRedb (p : String) (result : List (String × (Nat × List Nat))) (item : String × List Nat) :
+    Rs.M (Rs.Flow (List (String × (Nat × List Nat))) Empty) := do
+  let (key, vv) := item
+  if (String.isPrefixOf p key) then
+    let t_1 ← Gen.FnRedbKv.RedbKVVStore.decode_vv vv
+    let (version, value) := t_1
+    let result := (result ++ [(key, (version, value))])
+    pure (.next result)
+  else
+    pure (.brk result)
+
+theorem kvPfxLoopRedb (p : String) : ∀ (l : List (String × List Nat)) (acc : List (String × (Nat × List Nat))),
+    Rs.loopB l acc (kvPfxBodyRedb p)
+      = (do let r ← (l.takeWhile (fun e => String.isPrefixOf p e.1)).mapM kvDecodeEntry; pure (acc ++ r)) := by
+  intro l
+  induction l with
+  | nil => intro acc; simp [loopB_nil0, pure, Except.pure, bind, Except.bind]
+  | cons x xs ih =>
+    intro acc
+    obtain ⟨k, vv⟩ := x
+    have hb : kvPfxBodyRedb p acc (k, vv)
+        = if (String.isPrefixOf p k) then
+            (Gen.FnRedbKv.RedbKVVStore.decode_vv vv >>= fun t => pure (.next (acc ++ [(k, (t.1, t.2))])))
+          else pure (.brk acc) := rfl
+    rw [C16Gen.loopB_cons, hb]
+    by_cases h : String.isPrefixOf p k = true
+    · have htw : List.takeWhile (fun e : String × List Nat => String.isPrefixOf p e.1) ((k, vv) :: xs)
+          = (k, vv) :: List.takeWhile (fun e => String.isPrefixOf p e.1) xs := by simp [List.takeWhile, h]
+      rw [htw, List.mapM_cons]
+      cases hd : Gen.FnRedbKv.RedbKVVStore.decode_vv vv with
+      | error e => simp [h, hd, kvDecodeEntry, bind, Except.bind]
+      | ok t =>
+        simp only [h, hd, if_true, bind, Except.bind, pure, Except.pure, kvDecodeEntry]
+        rw [ih]
+        simp only [bind, Except.bind, pure, Except.pure]
+        cases List.mapM kvDecodeEntry (List.takeWhile (fun e => String.isPrefixOf p e.1) xs) with
+        | error e => rfl
+        | ok r => simp
+    · simp [h, bind, Except.bind, pure, Except.pure, List.takeWhile]
+
+/-- **`RedbKVVStore::get_prefix`**, for every table implementation -/
+theorem C16_fn_redbkv_get_prefix {D : Type} (rf : D → String → List (String × List Nat))
+    (c : Gen.FnRedbKv.RedbKVVStore D) (p : String) :
+    Gen.FnRedbKv.RedbKVVStore.get_prefix rf c p
+      = ((rf c.db p).takeWhile (fun e => String.isPrefixOf p e.1)).mapM kvDecodeEntry := by
+  have h0 : Gen.FnRedbKv.RedbKVVStore.get_prefix rf c p
+      = (do let r ← Rs.loopB (rf c.db p) [] (kvPfxBodyRedb p); pure r) := rfl
+  rw [h0, kvPfxLoopRedb p (rf c.db p) []]
+  cases List.mapM kvDecodeEntry (List.takeWhile (fun e => String.isPrefixOf p e.1) (rf c.db p)) with
+  | error e => rfl
+  | ok r => simp [bind, Except.bind, pure, Except.pure]
+
+example (p k k' : String) (h : String.isPrefixOf p k = true) (h' : String.isPrefixOf p k' = false) :
+    Gen.FnKvvMemPfx.MemoryKVVStore.get_prefix (fun d _ => d) ⟨[(k, (1, [7])), (k', (0, [])), (k, (2, [9]))]⟩ p
+      = .ok [(k, (1, [7]))] := by
+  rw [C16_fn_mem_get_prefix]; simp [List.takeWhile, h, h']
 
 /-! ### Round 10 (b7): constructors / identity accessors (`Gen/FnKvvMemNew.lean`, `Gen/FnRedbSid.lean`)
 
